@@ -36,4 +36,10 @@ theorem C05_run_skeleton :
        ["success", "self.explored and np.all(self.shell_n >= n_shell) and (self.n_eff >= n_eff) ||| self.explored and np.all(self.shell_n >= n_shell) and (self.n_eff >= n_eff)"]] := by
   rfl
 
+/-- the resume path reads every stored bound through the class named by its stored tag ... -/
+theorem C05_tie_boundReaders :
+    resumeBoundReaders =
+      [["UnitCube", "bound_{}", "group_i.attrs['type'] == 'UnitCube'"],
+       ["NautilusBound", "bound_{}", "not (group_i.attrs['type'] == 'UnitCube')"]] := by rfl
+
 end NautilusVerif
